@@ -149,6 +149,7 @@ type c37cinst struct {
 	nearest []int    // per thread: length of the NearestPeers result
 	free    int64    // scheduling points at which the invariants were evaluated (no writer)
 	held    int64    // scheduling points skipped because a writer held the table lock
+	viol    string   // first violation of this execution
 }
 
 func c37cbuild(sc c37cscn) *c37cinst {
@@ -289,21 +290,37 @@ func c37cwriter(rt *RouteTable) (held bool, ok bool) {
 	return w, true
 }
 
-// check is called by the explorer between steps (no thread is running).
+// check is called by the explorer between steps (no thread is running).  The
+// first violation is the verdict of the execution and stays; the rest of that
+// execution is not examined.  The explorer lets the threads run on to their
+// end, and the code under test is entitled to assume a valid table (e.g.
+// Bucket.MoveToFront does not terminate on a bucket that lists a peer twice),
+// so the buckets are emptied once the verdict is in.
 func (in *c37cinst) check(final bool) string {
+	if in.viol != "" {
+		return in.viol
+	}
 	for _, f := range in.fails {
 		if f != "" {
-			return f
+			in.viol = f
 		}
 	}
-	if !final {
-		if w, _ := c37cwriter(in.rt); w {
-			in.held++ // an Update/Remove is inside its critical section: nobody can observe the table
-			return ""
+	if in.viol == "" {
+		if !final {
+			if w, _ := c37cwriter(in.rt); w {
+				in.held++ // an Update/Remove is inside its critical section: nobody can observe the table
+				return ""
+			}
+			in.free++
 		}
-		in.free++
+		in.viol = in.structure()
 	}
-	return in.structure()
+	if in.viol != "" && !final {
+		for _, b := range in.rt.Buckets {
+			b.list.Init()
+		}
+	}
+	return in.viol
 }
 
 type c37ccase struct {
